@@ -34,7 +34,7 @@ def full_compare(spec, view, rb, w, p=None, pvals=None, scale_div=None, tag=""):
     viol = []
     ph = rb(w, p)
     f, atoms = view.atoms(w, p)
-    if not C.finite([a[1] for a in atoms], ph["tc"], [f]):
+    if not C.finite([a[1] for a in atoms], ph["tc"], [f]) or not C.phys_ok(ph):
         return 0, viol, {"discarded": True}
     ref = model.RefModel(spec, ph, pvals)
     rt = 1e-9
